@@ -65,7 +65,7 @@ class Req:
         elif k == "close": path = b"/close"
         elif k == "err": path = b"/err"
         elif k == "errint": path = b"/errint"
-        elif k == "errkind": path = b"/errkind/" + r.choice([b"brokenpipe", b"reset", b"aborted", b"eof", b"wouldblock", b"timedout", b"invaliddata", b"other"])
+        elif k == "errkind": path = b"/errkind/" + r.choice([b"brokenpipe", b"reset", b"aborted", b"eof", b"wouldblock", b"interrupted", b"timedout", b"invaliddata", b"other"])
         elif k == "silent": path = b"/silent"
         elif k == "errclose":
             path = b"/err"
